@@ -8,7 +8,7 @@ UNIT = {
         {'id': 'lines_n.files', 'recipe': ['lines-search'], 'props': ['C07'], 'kind': 'bounded',
          'bound': '13851 files: every malformed line of a pool of 14 (missing / bad / extra operand, unknown mnemonic or directive, stray character, '
                   'unclosed string / char / parenthesis, literal out of range) between, before and after every pair of a pool of 9 good lines, '
-                  'with and without trailing newline, LF and CR LF, with blank and comment lines; no included files',
+                  'with and without trailing newline, LF and CR LF, with blank and comment lines; plus 675 base+include file pairs with a malformed line in each file',
          'clause': 'every line holding more than blanks or a comment yields a node located on it or a parse error located on it; deleting a line that '
                    'produced an error leaves the nodes of every other line unchanged',
          'tier': 'quick'},
